@@ -403,6 +403,67 @@ def part_b(gi, lexer, res, only=None):
                         res['viol'].append({'kind': 'fork-result-differs-from-parse', 'cause': 'fork-resume', 'case': case, 'expected': want, 'observed': fres})
 
 
+def _exc_obs(e):
+    """Error class, token type and -- unless it is the fabricated $END, whose position is borrowed from whatever token the
+    driver saw last -- the token position."""
+    t = getattr(e, 'token', None)
+    typ = getattr(t, 'type', None)
+    return ('exc', type(e).__name__, typ, getattr(t, 'start_pos', None) if typ != '$END' else None)
+
+
+def part_c(gi, lexer, res, only=None):
+    """resume_parse() from an error state: for every text of TEXTS and every position, a token the parser cannot take
+    there is inserted; parse() raises UnexpectedToken carrying an interactive parser; resuming it must give exactly what a
+    fresh interactive parser gives when fed the tokens before the error and then the tokens after the offending one."""
+    name, gtext, terms = GRAMMARS[gi]
+    if name not in TEXTS:
+        return
+    p = Lark(gtext, parser='lalr', lexer=lexer)
+    for text in TEXTS[name]:
+        for pos in range(len(text) + 1):
+            for bad in sorted(set(terms.values())):
+                t2 = text[:pos] + bad + text[pos:]
+                if only and only['text'] != t2:
+                    continue
+                try:
+                    p.parse(t2)
+                    continue
+                except UnexpectedToken as e:
+                    err = e
+                except UnexpectedInput:
+                    continue
+                res['transitions'] += 1
+                res['states'] += 1
+                res['traces'] += 1
+                ip = err.interactive_parser
+                case = {'part': 'C', 'grammar_name': name, 'grammar': gtext, 'lexer': lexer, 'text': t2, 'item': ['C', gi, lexer]}
+                # reference: fresh interactive parser, tokens of the text without the offending one
+                try:
+                    toks = list(p.lex(t2)) if lexer == 'basic' else None
+                except UnexpectedInput:
+                    toks = None
+                if toks is None:
+                    # contextual lexer: take the tokens from the basic-lexer twin (the grammars have no colliding terminals)
+                    toks = list(Lark(gtext, parser='lalr', lexer='basic').lex(t2))
+                k = next((i for i, t in enumerate(toks) if t.start_pos == err.token.start_pos and t.type == err.token.type), None)
+                if k is None:
+                    continue
+                ref = p.parse_interactive()
+                try:
+                    for t in toks[:k] + toks[k + 1:]:
+                        ref.feed_token(t)
+                    want = ('ok', obs.canon(ref.feed_eof(toks[-1] if k != len(toks) - 1 else (toks[-2] if len(toks) > 1 else None)), pos=True))
+                except UnexpectedInput as e2:
+                    want = _exc_obs(e2)
+                try:
+                    got = ('ok', obs.canon(ip.resume_parse(), pos=True))
+                except UnexpectedInput as e2:
+                    got = _exc_obs(e2)
+                res['nontrivial'] += 1
+                if got != want:
+                    res['viol'].append({'kind': 'resume-from-error-state', 'cause': 'resume-error', 'case': case, 'expected': want, 'observed': got})
+
+
 def plan(tier, seed):
     depth = 5 if tier == 'quick' else 6
     items = []
@@ -414,6 +475,7 @@ def plan(tier, seed):
             items.append(('A', gi, oi, d))
         for lexer in ('basic', 'contextual'):
             items.append(('B', gi, lexer))
+            items.append(('C', gi, lexer))
         for oi in (1, 3):
             items.append(('A2', gi, oi, 8 if tier == 'quick' else 10))
     return items
@@ -422,7 +484,7 @@ def plan(tier, seed):
 def bounds(tier, seed):
     return {'grammars': [g[0] for g in GRAMMARS], 'options': [o[0] for o in OPTS], 'max_handles': 3,
             'depth': '5 operations (4 for 4-terminal, 3 for 6-terminal grammars)' if tier == 'quick' else '6 (5, 4)',
-            'lean_mode': 'accepted feeds + copy + feed_eof only, <= 2 handles, depth 8 (quick) / 10 (thorough), options pos and tr', 'part_B': 'every text of TEXTS x tokens fed before the fork x 3 fork kinds x {resume_parse, exhaust_lexer+feed_eof, nothing} x 2 lexers'}
+            'lean_mode': 'accepted feeds + copy + feed_eof only, <= 2 handles, depth 8 (quick) / 10 (thorough), options pos and tr', 'part_C': 'resume_parse() from the error state of every text with one unacceptable token inserted at every position', 'part_B': 'every text of TEXTS x tokens fed before the fork x 3 fork kinds x {resume_parse, exhaust_lexer+feed_eof, nothing} x 2 lexers'}
 
 
 def work(item):
@@ -431,6 +493,8 @@ def work(item):
         explore(item[1], item[2], item[3], res)
     elif item[0] == 'A2':
         explore(item[1], item[2], item[3], res, lean=True)
+    elif item[0] == 'C':
+        part_c(item[1], item[2], res)
     else:
         part_b(item[1], item[2], res)
     res['counters'] = dict(res['counters'])
@@ -439,7 +503,9 @@ def work(item):
 
 def replay(case):
     res = new_res()
-    if case.get('part') == 'B':
+    if case.get('part') == 'C':
+        part_c(case['item'][1], case['item'][2], res, only=case)
+    elif case.get('part') == 'B':
         part_b(case['item'][1], case['item'][2], res, only=case)
     else:
         explore(*case['item'], res, only=case if 'history' in case else None, lean=case.get('lean', False))
